@@ -112,6 +112,10 @@ type Peer struct {
 	TimeOffset time.Duration
 	// StartHeightOverride, if non-zero, is advertised instead of the tip.
 	StartHeightOverride int32
+	// PreVersion, when set, is called on every connection after the client's
+	// version message was read and before this peer sends its own version
+	// (a scenario can hold the handshake there). Additive; nil = no effect.
+	PreVersion func(p *Peer)
 
 	mu      sync.Mutex
 	conn    *Conn
@@ -289,6 +293,9 @@ func (p *Peer) Serve(conn *Conn) {
 		return
 	}
 	// 2. our version, 3. verack.
+	if p.PreVersion != nil {
+		p.PreVersion(p)
+	}
 	tip := p.View.Tip()
 	me := wire.NewNetAddressIPPort(TCPAddr(p.Addr).IP, uint16(TCPAddr(p.Addr).Port), p.Services)
 	you := wire.NewNetAddressIPPort(net.IPv4(127, 0, 0, 1), 0, 0)
